@@ -12,3 +12,4 @@ import Props.C06
 #print axioms C06.C06_position_independent
 #print axioms C06.C06_withdrawals_executed
 #print axioms C06.C06_reset_delivers_nothing
+#print axioms C06.C06_handling_independent_of_history
